@@ -203,3 +203,122 @@ package proxy
 //@ func newWSHandler$1$2
 //@   props C09
 //@   assigns rd, wr
+//@
+//@ // ---- C16: gRPC calls: route selection, NotFound without a backend, connection reuse and clean-up ---------------
+//@ func makeGRPCTargetKey
+//@   props C16
+//@   requires t != nil && t.URL != nil
+//@   assigns nothing
+//@   ensures nopanic
+//@   ensures result == urlString(t.URL)
+//@
+//@ // the host a caller names in its dsthost metadata: exactly one value, otherwise none
+//@ func (GrpcProxyInterceptor).getDestinationHostFromMetadata
+//@   props C16
+//@   assigns nothing
+//@   ensures nopanic
+//@   ensures len(md["dsthost"]) == 1 ==> dstHost == md["dsthost"][0]
+//@   ensures len(md["dsthost"]) != 1 ==> dstHost == ""
+//@
+//@ func (GrpcProxyInterceptor).lookup
+//@   props C16
+//@   requires g.Config != nil && ctx != nil
+//@   requires route.Picker[g.Config.Proxy.Strategy] != nil && route.Matcher[g.Config.Proxy.Matcher] != nil
+//@   requires tableReady()
+//@   requires g.Config.GlobMatchingDisabled || (gcInv(g.GlobCache) && len(g.GlobCache.l) > 0)
+//@   assigns route.Route.total, route.GlobCache.n, route.GlobCache.h, elems(string), elems(interface{}), smapGlobs, hdr1, hdrHas, ioWrites, lastWrite
+//@   ensures nopanic
+//@   // a call without metadata or with an unparsable method path is an error, never a target
+//@   ensures !mdOK(ctx) ==> result0 == nil && result1 != nil
+//@   ensures result1 != nil ==> result0 == nil
+//@   // the table is asked for the method path under the host named in the caller's dsthost metadata
+//@   at "Header: headers," assert req.URL == reqUrl && req.Host == (len(md["dsthost"]) == 1 ? md["dsthost"][0] : "")
+//@
+//@ // the stream handler installed by the grpc proxy library: opaque; it is what contacts a backend
+//@ func param:(GrpcProxyInterceptor).Stream.handler(srv interface{}, stream grpc.ServerStream) (err error)
+//@   assigns *
+//@   sets grpcHandlerCalls = old(grpcHandlerCalls) + 1
+//@   sets grpcLastStream = stream
+//@
+//@ func (GrpcProxyInterceptor).Stream
+//@   props C16
+//@   requires stream != nil && info != nil && handler != nil && g.StatsHandler != nil && g.StatsHandler.NoRoute != nil && g.Config != nil
+//@   requires route.Picker[g.Config.Proxy.Strategy] != nil && route.Matcher[g.Config.Proxy.Matcher] != nil
+//@   requires tableReady()
+//@   requires g.Config.GlobMatchingDisabled || (gcInv(g.GlobCache) && len(g.GlobCache.l) > 0)
+//@   assigns *
+//@   // the handler (and with it any backend) is invoked at most once ...
+//@   ensures grpcHandlerCalls == old(grpcHandlerCalls) || grpcHandlerCalls == old(grpcHandlerCalls) + 1
+//@   // ... and not at all when no route matches (NotFound) or the lookup fails (Internal)
+//@   ensures grpcHandlerCalls == old(grpcHandlerCalls) ==> result != nil && (statusCode(result) == 5 || statusCode(result) == 13)
+//@   // when it is invoked, it sees a stream whose context carries the chosen target, and its outcome is the call's outcome
+//@   ensures grpcHandlerCalls == old(grpcHandlerCalls) + 1 ==> typeIs(grpcLastStream, proxyStream) && typeIs(ctxValue(unbox(grpcLastStream, proxyStream).ctx, boxZero(targetKey)), *route.Target) && unbox(ctxValue(unbox(grpcLastStream, proxyStream).ctx, boxZero(targetKey)), *route.Target) != nil
+//@
+//@ // the connection pool: one client connection per backend URL
+//@ func (*grpcConnectionPool).Set
+//@   props C16
+//@   requires p != nil && p.connections != nil && target != nil && target.URL != nil
+//@   assigns mapsOf(map[string]*grpc.ClientConn)
+//@   ensures nopanic
+//@   ensures hasKey(p.connections, urlString(target.URL)) && p.connections[urlString(target.URL)] == conn
+//@   ensures forall k string :: k != urlString(target.URL) ==> p.connections[k] == old(p.connections[k]) && hasKey(p.connections, k) == old(hasKey(p.connections, k))
+//@
+//@ func (*grpcConnectionPool).Get
+//@   props C16
+//@   requires p != nil && p.connections != nil && p.cfg != nil && target != nil && target.URL != nil
+//@   assigns mapsOf(map[string]*grpc.ClientConn), grpcDials
+//@   ensures nopanic
+//@   // a pooled connection that has not been shut down is reused: no new dial, the pool is left alone
+//@   ensures old(p.connections[urlString(target.URL)]) != nil && connState(old(p.connections[urlString(target.URL)])) != 4 ==> result0 == old(p.connections[urlString(target.URL)]) && result1 == nil && grpcDials == old(grpcDials)
+//@   // otherwise exactly one connection is dialled, and pooled under the backend's URL if the dial succeeded
+//@   ensures !(old(p.connections[urlString(target.URL)]) != nil && connState(old(p.connections[urlString(target.URL)])) != 4) ==> grpcDials == old(grpcDials) + 1 && (result1 == nil ==> p.connections[urlString(target.URL)] == result0 && result0 != nil)
+//@
+//@ func (*grpcConnectionPool).newConnection
+//@   props C16
+//@   requires p != nil && p.connections != nil && p.cfg != nil && target != nil && target.URL != nil
+//@   assigns mapsOf(map[string]*grpc.ClientConn), grpcDials
+//@   ensures nopanic
+//@   ensures grpcDials == old(grpcDials) + 1
+//@   ensures result1 == nil ==> result0 != nil && p.connections[urlString(target.URL)] == result0
+//@   ensures result1 != nil ==> forall k string :: p.connections[k] == old(p.connections[k])
+//@
+//@ // does any target of the table render to this key?
+//@ spec fun keyInTable(tKey string, t route.Table) bool opaque = exists h string, k int, j int :: 0 <= k && k < len(t[h]) && 0 <= j && j < len(t[h][k].Targets) && urlString(t[h][k].Targets[j].URL) == tKey
+//@
+//@ func hasTarget
+//@   props C16
+//@   requires wfTable(table) && targetsOK(table)
+//@   assigns nothing
+//@   ensures nopanic
+//@   ensures result ==> keyInTable(tKey, table)
+//@   ensures !result ==> !keyInTable(tKey, table)
+//@   loop 1 invariant forall h string, k int, j int :: visited(h) && 0 <= k && k < len(table[h]) && 0 <= j && j < len(table[h][k].Targets) ==> urlString(table[h][k].Targets[j].URL) != tKey
+//@   loop 2 invariant forall k int, j int :: 0 <= k && k <= rangeindex && 0 <= j && j < len(routes[k].Targets) ==> urlString(routes[k].Targets[j].URL) != tKey
+//@   loop 3 invariant forall j int :: 0 <= j && j <= rangeindex ==> urlString(r.Targets[j].URL) != tKey
+//@
+//@ // the director handed to the grpc proxy library: picks the pooled connection for the target the interceptor chose
+//@ func GetGRPCDirector$1
+//@   props C16
+//@   requires ctx != nil && connectionPool != nil && connectionPool.connections != nil && connectionPool.cfg != nil
+//@   requires typeIs(ctxValue(ctx, boxZero(targetKey)), *route.Target) ==> unbox(ctxValue(ctx, boxZero(targetKey)), *route.Target).URL != nil
+//@   assigns mapsOf(map[string]*grpc.ClientConn), grpcDials, ioWrites, lastWrite
+//@   ensures nopanic
+//@   // without metadata or without a chosen target there is an error and no connection: no backend is contacted
+//@   ensures !mdOK(ctx) ==> result1 == nil && result2 != nil && grpcDials == old(grpcDials)
+//@   ensures mdOK(ctx) && !typeIs(ctxValue(ctx, boxZero(targetKey)), *route.Target) ==> result1 == nil && result2 != nil && grpcDials == old(grpcDials)
+//@   // the outgoing context carries a copy of exactly the caller's metadata (and everything else of the caller's context)
+//@   ensures mdOK(ctx) ==> outMD(result0) == mdCopyOf(mdOf(ctx)) && forall k interface{} :: ctxValue(result0, k) == ctxValue(ctx, k)
+//@
+//@ func (*grpcConnectionPool).cleanup
+//@   props C16
+//@   requires p != nil && p.connections != nil && p.cfg != nil && tableReady()
+//@   assigns *
+//@   loop 1 invariant p != nil && p.connections != nil && p.cfg != nil && tableReady()
+//@   // every round consults the table that is installed NOW (other goroutines may install a new one while this one
+//@   // sleeps), and waits before the next round
+//@   at "p.lock.Unlock()" assert table == activeTbl()
+//@   loop 1 iteration ensures sleeps > old(sleeps)
+//@   // a connection that was shut down, or whose backend is no longer in the table, leaves the pool
+//@   loop 2 invariant p != nil && p.connections != nil && p.cfg != nil && tableReady() && table == activeTbl()
+//@   loop 2 invariant forall k string :: visited(k) && hasKey(p.connections, k) ==> keyInTable(k, table) && connState(p.connections[k]) != 4
+//@   at "p.lock.Unlock()" assert forall k string :: hasKey(p.connections, k) ==> keyInTable(k, table) && connState(p.connections[k]) != 4
